@@ -523,6 +523,7 @@ type Contract struct {
 	NoPanic  bool
 	Trusted  bool // contract assumed, body not verified
 	Inline   bool // always inline, ignoring size limit
+	Thorough bool // only verified in the thorough tier
 	Pure     bool // modifies nothing, result functional
 	Loops    map[int]*LoopSpec
 	Lets     []LetDef
@@ -728,6 +729,8 @@ func ParseContractText(pkg, file, text string) (*ContractFile, error) {
 			cur.Trusted = true
 		case "inline":
 			cur.Inline = true
+		case "thorough":
+			cur.Thorough = true
 		case "pure":
 			cur.Pure = true
 			cur.ModSet = true
